@@ -16,6 +16,10 @@
 //	             a trailing h (write.1h) puts half of a next request head right behind the parked request (same write);
 //	             on head/headc a trailing c makes the client close its side once closing is visible, a trailing f makes
 //	             it complete the head after Close returned (must not be served); default: the client stays silent
+//	             after a slash, the OUTCOME of the steps of the parked exchange (reqmod.1/qx):
+//	               q reqmod returns an error   k reqmod calls ctx.SkipRoundTrip()
+//	               x y z  the round trip fails (custom error / io.EOF / timeout)   r resmod returns an error
+//	               g (write only) the client goes away instead of reading the response
 //	    async    (token) release all parked exchanges at once instead of one after the other
 //	    R: order in which the parked exchanges are released after Close was called
 //	    sc:<ms>  (token) every conn.Close() done by the proxy takes <ms> (X is recorded when it completed)
@@ -35,6 +39,8 @@
 //
 //	A<c> Accept returned   h<c> client sent half a request head (only when the connection is known to be idle)
 //	q<c> reqmod entered    t<c> round trip entered   s<c> resmod entered   e<c> resmod returning
+//	T<c>+ / T<c>-  the round trip returns a response / an error     P<c>+ / P<c>-  the head about to be written is / is not a 502
+//	F<c> a socket write of the response failed     G<c> the client went away
 //	W<c>+ / W<c>-  first socket write of a response with / without Connection: close
 //	w<c> last byte of the response written     X<c> conn.Close()
 //	CC Close called   CV p.Closing() seen true   CR Close returned
@@ -71,6 +77,9 @@ const bigBody = 1 << 20
 type connRec struct {
 	id       int
 	addr     string
+	out      string // outcomes of the steps of exchange parkAt (see IN tokens)
+	cur      int    // index of the exchange being handled
+	failed   int32  // a write error was recorded
 	park     string // point at which this connection parks
 	parkAt   int    // exchange index that parks
 	nReq     int    // exchanges that entered reqmod
@@ -93,6 +102,7 @@ type run struct {
 	// configuration for the next accepted connection
 	nextPark   string
 	nextParkAt int
+	nextOut    string
 	nextUnreg  bool
 	unregGate  chan struct{}
 	closeDelay time.Duration // every conn.Close() of the proxy takes this long
@@ -170,9 +180,9 @@ func (l *recListener) Accept() (net.Conn, error) {
 	h := l.h
 	rc := &recConn{Conn: c, h: h}
 	h.mu.Lock()
-	cr := &connRec{id: len(h.conns), addr: c.RemoteAddr().String(), park: h.nextPark, parkAt: h.nextParkAt,
+	cr := &connRec{id: len(h.conns), addr: c.RemoteAddr().String(), park: h.nextPark, parkAt: h.nextParkAt, out: h.nextOut,
 		parked: make(chan struct{}, 1), release: make(chan struct{})}
-	h.nextPark = ""
+	h.nextPark, h.nextOut = "", ""
 	if h.nextUnreg {
 		h.nextUnreg = false
 		rc.blockRA = h.unregGate
@@ -235,7 +245,11 @@ func (c *recConn) Write(b []byte) (int, error) {
 				rest = rest[:strings.Index(rest, "\r\n")]
 				cl, _ = strconv.ParseInt(rest, 10, 64)
 			}
-			pre = append(pre, fmt.Sprintf("W%d%s", c.cr.id, mark))
+			st := "-"
+			if strings.HasPrefix(hd, "http/1.1 502") {
+				st = "+"
+			}
+			pre = append(pre, fmt.Sprintf("P%d%s", c.cr.id, st), fmt.Sprintf("W%d%s", c.cr.id, mark))
 			c.inBody, c.remain = true, cl
 		}
 		if c.inBody {
@@ -264,6 +278,8 @@ func (c *recConn) Write(b []byte) (int, error) {
 		for i := 0; i < done; i++ {
 			c.h.add(fmt.Sprintf("w%d", c.cr.id))
 		}
+	} else if atomic.CompareAndSwapInt32(&c.cr.failed, 0, 1) {
+		c.h.add(fmt.Sprintf("F%d", c.cr.id))
 	}
 	return n, err
 }
@@ -301,9 +317,12 @@ func (h *run) gate(point, addr string) *connRec {
 	default:
 		n, tok = &cr.nRes, "s"
 	}
+	if point == "reqmod" {
+		cr.cur = cr.nReq
+	}
 	h.add(fmt.Sprintf("%s%d", tok, cr.id))
 	h.nap()
-	if cr.park == point && *n == cr.parkAt {
+	if cr.park == point && cr.cur == cr.parkAt {
 		cr.parked <- struct{}{}
 		<-cr.release
 	}
@@ -311,10 +330,28 @@ func (h *run) gate(point, addr string) *connRec {
 	return cr
 }
 
+// outcome reports whether the exchange being handled on cr is the one whose
+// steps have scripted outcomes, and whether letter k is among them.
+func (cr *connRec) outcome(k byte) bool {
+	return cr != nil && cr.cur == cr.parkAt && strings.IndexByte(cr.out, k) >= 0
+}
+
+type timeoutErr struct{}
+
+func (timeoutErr) Error() string   { return "upstream i/o timeout" }
+func (timeoutErr) Timeout() bool   { return true }
+func (timeoutErr) Temporary() bool { return true }
+
 type reqMod struct{ h *run }
 
 func (m reqMod) ModifyRequest(req *http.Request) error {
-	m.h.gate("reqmod", req.RemoteAddr)
+	cr := m.h.gate("reqmod", req.RemoteAddr)
+	if cr.outcome('k') {
+		martian.NewContext(req).SkipRoundTrip()
+	}
+	if cr.outcome('q') {
+		return errors.New("request modifier failed")
+	}
 	return nil
 }
 
@@ -324,6 +361,9 @@ func (m resMod) ModifyResponse(res *http.Response) error {
 	cr := m.h.gate("resmod", res.Request.RemoteAddr)
 	if cr != nil {
 		m.h.add(fmt.Sprintf("e%d", cr.id))
+	}
+	if cr.outcome('r') {
+		return errors.New("response modifier failed")
 	}
 	return nil
 }
@@ -339,7 +379,23 @@ func bodyFor(n int) []byte {
 type upstream struct{ h *run }
 
 func (u upstream) RoundTrip(req *http.Request) (*http.Response, error) {
-	u.h.gate("rt", req.RemoteAddr)
+	cr := u.h.gate("rt", req.RemoteAddr)
+	if cr != nil {
+		var err error
+		switch {
+		case cr.outcome('x'):
+			err = errors.New("origin refused the connection")
+		case cr.outcome('y'):
+			err = io.EOF
+		case cr.outcome('z'):
+			err = timeoutErr{}
+		}
+		if err != nil {
+			u.h.add(fmt.Sprintf("T%d-", cr.id))
+			return nil, err
+		}
+		u.h.add(fmt.Sprintf("T%d+", cr.id))
+	}
 	n, _ := strconv.Atoi(strings.TrimPrefix(req.URL.Path, "/b/"))
 	b := bodyFor(n)
 	return &http.Response{
@@ -359,7 +415,8 @@ type client struct {
 	mu    sync.Mutex
 	resps []byte // m u T
 	end   byte   // c o
-	sizes []int  // expected body sizes in order
+	sizes []int  // expected body sizes in order; -1 = a 502 with a Warning header and no body
+	gone  bool   // the client went away on purpose
 	done  chan struct{}
 	once  sync.Once
 }
@@ -377,6 +434,15 @@ func (cl *client) send(n int) {
 	cl.sizes = append(cl.sizes, n)
 	cl.mu.Unlock()
 	fmt.Fprintf(cl.c, "GET http://h.test/b/%d HTTP/1.1\r\nHost: h.test\r\n\r\n", n)
+}
+
+// setExpect overrides what the idx-th response must be (-1: 502 + Warning, n: 200 with bodyFor(n)).
+func (cl *client) setExpect(idx, v int) {
+	cl.mu.Lock()
+	if idx < len(cl.sizes) {
+		cl.sizes[idx] = v
+	}
+	cl.mu.Unlock()
 }
 
 // sendPipelined writes several requests in a single socket write.
@@ -448,6 +514,13 @@ func (cl *client) readOne(deadline time.Duration) (ok bool) {
 				code = 'u'
 			}
 		}
+		if err2 == nil && res.StatusCode == 502 && want == -1 && len(b) == 0 && res.Header.Get("Warning") != "" {
+			if res.Close {
+				code = 'M'
+			} else {
+				code = 'U'
+			}
+		}
 	}
 	cl.mu.Lock()
 	cl.resps = append(cl.resps, code)
@@ -479,6 +552,9 @@ func (cl *client) drain(d time.Duration) {
 func (cl *client) view() string {
 	cl.mu.Lock()
 	defer cl.mu.Unlock()
+	if cl.gone {
+		return "!"
+	}
 	return string(cl.resps) + ":" + string(cl.end)
 }
 
@@ -530,8 +606,9 @@ type spec struct {
 	point string
 	warm  int
 	pipe  bool
-	coal  bool // half of a next head coalesced behind the parked request
-	after byte // head/headc: 's' silent, 'c' client closes, 'f' client finishes the head after Close returned
+	coal  bool   // half of a next head coalesced behind the parked request
+	out   string // outcomes of the steps of the parked exchange
+	after byte   // head/headc: 's' silent, 'c' client closes, 'f' client finishes the head after Close returned
 	cl    *client
 	cr    *connRec
 }
@@ -559,6 +636,10 @@ func parseForced(in []string) (sz int, specs []*spec, order []int, async bool, s
 				}
 			}
 		default:
+			outc := ""
+			if i := strings.IndexByte(t, '/'); i >= 0 {
+				t, outc = t[:i], t[i+1:]
+			}
 			pw := strings.SplitN(t, ".", 2)
 			w := 0
 			pipe, coal, after := false, false, byte('s')
@@ -584,8 +665,29 @@ func parseForced(in []string) (sz int, specs []*spec, order []int, async bool, s
 			if pw[0] != "head" && pw[0] != "headc" {
 				after = 's'
 			}
+			// outcomes only make sense on an exchange that is parked; a parked write needs the origin's big body
+			allowed := ""
+			switch pw[0] {
+			case "reqmod", "rt", "resmod":
+				allowed = "qkxyzr"
+			case "write":
+				allowed = "qrg"
+			}
+			var ob []byte
+			for i := 0; i < len(outc); i++ {
+				if strings.IndexByte(allowed, outc[i]) >= 0 && strings.IndexByte(string(ob), outc[i]) < 0 {
+					ob = append(ob, outc[i])
+				}
+			}
+			if strings.IndexByte(string(ob), 'k') >= 0 {
+				// the round tripper is not called at all
+				ob = []byte(strings.NewReplacer("x", "", "y", "", "z", "").Replace(string(ob)))
+				if pw[0] == "rt" {
+					pw[0] = "reqmod"
+				}
+			}
 			specs = append(specs, &spec{point: pw[0], warm: w, pipe: pipe && !coal && isParked(pw[0]),
-				coal: coal && isParked(pw[0]), after: after})
+				coal: coal && isParked(pw[0]), after: after, out: string(ob)})
 		}
 	}
 	if sz < 0 || sz > 1<<16 {
@@ -648,7 +750,9 @@ func runForced(in []string) (out []string) {
 		h.mu.Lock()
 		switch s.point {
 		case "reqmod", "rt", "resmod":
-			h.nextPark, h.nextParkAt = s.point, s.warm
+			h.nextPark, h.nextParkAt, h.nextOut = s.point, s.warm, s.out
+		case "write":
+			h.nextParkAt, h.nextOut = s.warm, s.out
 		case "unreg":
 			h.nextUnreg = true
 		}
@@ -706,6 +810,11 @@ func runForced(in []string) (out []string) {
 				cl.sendPipelined(sz, sz+7)
 			} else {
 				cl.send(sz)
+			}
+			if strings.ContainsAny(s.out, "xyz") {
+				cl.setExpect(s.warm, -1)
+			} else if strings.Contains(s.out, "k") {
+				cl.setExpect(s.warm, 0)
 			}
 			select {
 			case <-s.cr.parked:
@@ -803,6 +912,13 @@ func runForced(in []string) (out []string) {
 		s := specs[i]
 		if s.point != "write" {
 			close(s.cr.release)
+		} else if strings.Contains(s.out, "g") {
+			// the client goes away instead of reading the response
+			h.add(fmt.Sprintf("G%d", s.cr.id))
+			s.cl.mu.Lock()
+			s.cl.gone = true
+			s.cl.mu.Unlock()
+			s.cl.c.Close()
 		}
 		s.cl.drain(8 * time.Second)
 		if async {
@@ -817,7 +933,7 @@ func runForced(in []string) (out []string) {
 				return true
 			default:
 			}
-			return h.count(wtok) >= s.warm+1
+			return h.count(wtok) >= s.warm+1 || atomic.LoadInt32(&s.cr.failed) == 1
 		})
 	}
 
@@ -1300,6 +1416,65 @@ func main() {
 				in = append(in, "sc:40")
 			}
 			cfg.Count(fmt.Sprintf("conns=%d", k))
+			n++
+			jobs = append(jobs, job{fmt.Sprintf("f%d", n), in})
+		}
+		// outcomes of the parked exchange's steps: every point x every outcome the code distinguishes
+		for _, pt := range []string{"reqmod", "rt", "resmod"} {
+			for _, oc := range []string{"q", "k", "x", "y", "z", "r", "qx", "yr", "kr", "qzr"} {
+				w := rng.Intn(2)
+				in := []string{"F", fmt.Sprintf("sz:%d", pickSz(rng)), fmt.Sprintf("%s.%d/%s", pt, w, oc)}
+				if rng.Chance(1, 3) {
+					in = append(in, "sc:40")
+				}
+				cfg.Count("outcome=" + oc)
+				cfg.Count("point=" + pt)
+				n++
+				jobs = append(jobs, job{fmt.Sprintf("f%d", n), in})
+			}
+		}
+		for _, oc := range []string{"g", "q", "r", "qr", "gq"} {
+			for w := 0; w <= 1; w++ {
+				n++
+				cfg.Count("outcome=" + oc)
+				cfg.Count("point=write")
+				jobs = append(jobs, job{fmt.Sprintf("f%d", n), []string{"F", "sz:100", fmt.Sprintf("write.%d/%s", w, oc)}})
+			}
+		}
+		no := 20
+		if cfg.Thorough() {
+			no = 250
+		}
+		ocs := []string{"q", "k", "x", "y", "z", "r", "qx", "yr", "kr", "xr", "qy"}
+		for i := 0; i < no; i++ {
+			k := rng.Range(2, 3)
+			in := []string{"F", fmt.Sprintf("sz:%d", pickSz(rng))}
+			np := 0
+			for j := 0; j < k; j++ {
+				p := points[rng.Intn(len(points))]
+				tok := fmt.Sprintf("%s.%d", p, rng.Intn(2))
+				if isParked(p) {
+					np++
+					if p == "write" {
+						if rng.Chance(1, 3) {
+							tok += "/g"
+						}
+					} else if rng.Chance(3, 4) {
+						tok += "/" + ocs[rng.Intn(len(ocs))]
+					}
+				}
+				in = append(in, tok)
+			}
+			if ps := perms(np); len(ps) > 1 {
+				in = append(in, orderTok(ps[rng.Intn(len(ps))]))
+			}
+			if rng.Chance(1, 3) {
+				in = append(in, "async")
+			}
+			if rng.Chance(1, 3) {
+				in = append(in, "sc:40")
+			}
+			cfg.Count("outcome-mix")
 			n++
 			jobs = append(jobs, job{fmt.Sprintf("f%d", n), in})
 		}
